@@ -157,4 +157,4 @@ impl ExactSizeIterator for IntoIter {
 
 #[cfg(kani)]
 #[path = "/verif/kani/cluster.rs"]
-mod verif_kani;
+pub(crate) mod verif_kani;
